@@ -137,6 +137,15 @@ method_reorder_encode (PyObject *self, PyObject *args)
         &padded_length,
         verbose);
 
+    if (output_length < 0)
+    {
+        /* mlw_encode refused the weights (valid range is -255..255) */
+        mlw_free_outbuf(output_buffer);
+        Py_DECREF(input_ndarray_object);
+        PyErr_SetString(PyExc_ValueError, "Input value out of bounds");
+        return NULL;
+    }
+
     PyObject *output_byte_array = PyByteArray_FromStringAndSize((char*)output_buffer, output_length);
     PyObject *padded_length_obj = Py_BuildValue("i", padded_length);
 
